@@ -922,7 +922,7 @@ std::string summarize_document(Document& doc)
     }
     for (auto& p : doc.get_processes()) {
         os << "process " << p.uid.get_name() << " of " << (p.templ ? p.templ->uid.get_name() : "<null>")
-           << " unbound=" << p.unbound << "\n";
+           << " unbound=" << p.unbound << " prio=" << doc.get_proc_priority(p.uid.get_name().c_str()) << "\n";
         if (!(p.parameters == frame_t{}))
             for (uint32_t i = 0; i < p.parameters.get_size(); ++i) {
                 auto it = p.mapping.find(p.parameters[i]);
